@@ -848,8 +848,9 @@ func gamma_p_derivative_imp(a, x float64) float64 {
     // overflow:
     return math.Inf(1)
    }
-   if f1 == 0.0 {
-     // Underflow in calculation, use logs instead:
+   if f1 < 2.2250738585072014e-308 {
+     // Underflow in calculation (zero or a subnormal number, which has
+     // lost its digits), use logs instead:
      v, _ := math.Lgamma(a)
      f1 = a*math.Log(x) - x - v - math.Log(x)
      f1 = math.Exp(f1)
@@ -878,6 +879,12 @@ func gamma_p_second_derivative_imp(a, x float64) float64 {
     }
   }
   t := gamma_p_derivative_imp(a, x)
+  if t < 2.2250738585072014e-308 && a > 0.0 && x > 0.0 {
+    // the first derivative underflows although ((a-1)/x - 1) times it
+    // need not: form x^(a-2) exp(-x) (a - 1 - x) / Gamma(a) in logs
+    v, _ := math.Lgamma(a)
+    return math.Exp((a-2.0)*math.Log(x) - x - v)*(a - 1.0 - x)
+  }
   return (a-1.0)*t/x - t
 }
 
